@@ -28,36 +28,58 @@ def is_crossing(x, y, y_step, i, k, xt):
             and close(y[i] / y_step + (xt - x[i]) * (y[i + 1] / y_step - y[i] / y_step) / (x[i + 1] - x[i]), k))
 
 
+@spec
+def cnt(y, y_step, i):
+    return abs(lvl(y, y_step, i + 1) - lvl(y, y_step, i))
+
+
+@spec
+def reported(x, y, y_step, offs, seg, ord_, out, p):
+    """Output position p is the ord_[p]-th level of the pair (seg[p], seg[p]+1), at its place in
+    the enumeration (pairs in order, levels in order), and is a true crossing."""
+    return (0 <= seg[p] and seg[p] < len(x) - 1
+            and 0 <= ord_[p] and ord_[p] < cnt(y, y_step, seg[p])
+            and p == seg_off(offs, seg[p]) + ord_[p]
+            and out[p][0] == target_of(y, y_step, seg[p], ord_[p])
+            and is_crossing(x, y, y_step, seg[p], out[p][0], out[p][1]))
+
+
 @contract("spowtd.regrid:regrid",
           args={"x": "array[real]", "y": "array[real]", "y_step": "real", "interpolant": "const:linear"},
-          returns="list[tuple[int,real]]", ghost_results={"g_offs": "array[int]"})
+          returns="list[tuple[int,real]]",
+          ghost_results={"g_offs": "array[int]", "g_seg": "list[int]", "g_ord": "list[int]"})
 def _regrid(x, y, y_step, interpolant, result):
     """C12: for every pair of consecutive samples, every multiple of the step between them
     (lower value included, upper excluded) is reported exactly once, at the point where the
-    straight line through the two samples takes that value; nothing else is reported."""
+    straight line through the two samples takes that value; nothing else is reported.
+
+    Stated with ghost results: g_offs (crossings reported up to and including each pair) and,
+    per output position, the pair g_seg[p] and the ordinal g_ord[p] of the level within the pair.
+    `reported` for every p, together with len(result) = total count, says that the output is the
+    enumeration (pairs in order, levels in order): position p <-> (pair, ordinal) is a bijection."""
     requires(y_step > 0)
-    requires(forall(0, len(x) - 1, lambda i: x[i] < x[i + 1]))
+    requires(forall(0, len(x), lambda j: forall(0, j, lambda i: x[i] < x[j])))
     requires(len(x) != 1 or len(y) != 1)
     raises(ValueError, when=len(x) != len(y))
-    ghost(after="y_int = ", let="g_offs", do=lambda: prefix_sums(
-        [abs(y_int[i + 1] - y_int[i]) for i in range(len(y_int) - 1)]))
+    ghost(after="y_int = ", let="g_counts", do=lambda: [abs(y_int[i + 1] - y_int[i]) for i in range(len(y_int) - 1)])
+    ghost(after="y_int = ", let="g_offs", do=lambda: prefix_sums(g_counts))
+    ghost(after="y_int = ", do=lambda: prefix_sums_monotone(g_counts, g_offs))
+    ghost(after="y_int = ", let="g_seg", do=lambda: [])
+    ghost(after="y_int = ", let="g_ord", do=lambda: [])
+    ghost(before="yield (y_target, x_target)", let="g_ord", do=lambda: g_ord + [len(__yielded__) - seg_off(g_offs, i)])
+    ghost(before="yield (y_target, x_target)", let="g_seg", do=lambda: g_seg + [i])
     ensures(len(g_offs) == (len(x) - 1 if len(x) >= 1 else 0))
-    ensures(forall(0, len(g_offs), lambda i: g_offs[i] == seg_off(g_offs, i) + abs(lvl(y, y_step, i + 1) - lvl(y, y_step, i))))
+    ensures(forall(0, len(g_offs), lambda i: g_offs[i] == seg_off(g_offs, i) + cnt(y, y_step, i)))
     ensures(len(result) == (0 if len(x) <= 1 else g_offs[len(x) - 2]))
-    ensures(forall(0, len(x) - 1, lambda i: forall(0, abs(lvl(y, y_step, i + 1) - lvl(y, y_step, i)), lambda j:
-            result[seg_off(g_offs, i) + j][0] == target_of(y, y_step, i, j)
-            and is_crossing(x, y, y_step, i, target_of(y, y_step, i, j), result[seg_off(g_offs, i) + j][1]))))
-    loop(0, types={"__yielded__": "list[tuple[int,real]]"}, inv=lambda it: len(__yielded__) == seg_off(g_offs, it)
-         and forall(0, it, lambda i: forall(0, abs(lvl(y, y_step, i + 1) - lvl(y, y_step, i)), lambda j:
-             __yielded__[seg_off(g_offs, i) + j][0] == target_of(y, y_step, i, j)
-             and is_crossing(x, y, y_step, i, target_of(y, y_step, i, j), __yielded__[seg_off(g_offs, i) + j][1]))))
+    ensures(len(g_seg) == len(result) and len(g_ord) == len(result))
+    ensures(forall(0, len(result), lambda p: reported(x, y, y_step, g_offs, g_seg, g_ord, result, p)))
+    loop(0, types={"__yielded__": "list[tuple[int,real]]", "g_seg": "list[int]", "g_ord": "list[int]"},
+         inv=lambda it: len(__yielded__) == seg_off(g_offs, it)
+         and len(g_seg) == len(__yielded__) and len(g_ord) == len(__yielded__)
+         and forall(0, len(__yielded__), lambda p: reported(x, y, y_step, g_offs, g_seg, g_ord, __yielded__, p)))
     loop(1, inv=lambda it: len(__yielded__) == seg_off(g_offs, i) + it
-         and forall(0, i, lambda i2: forall(0, abs(lvl(y, y_step, i2 + 1) - lvl(y, y_step, i2)), lambda j:
-             __yielded__[seg_off(g_offs, i2) + j][0] == target_of(y, y_step, i2, j)
-             and is_crossing(x, y, y_step, i2, target_of(y, y_step, i2, j), __yielded__[seg_off(g_offs, i2) + j][1])))
-         and forall(0, it, lambda j:
-             __yielded__[seg_off(g_offs, i) + j][0] == target_of(y, y_step, i, j)
-             and is_crossing(x, y, y_step, i, target_of(y, y_step, i, j), __yielded__[seg_off(g_offs, i) + j][1])))
+         and len(g_seg) == len(__yielded__) and len(g_ord) == len(__yielded__)
+         and forall(0, len(__yielded__), lambda p: reported(x, y, y_step, g_offs, g_seg, g_ord, __yielded__, p)))
 
 
 @native_ghosts("spowtd.regrid:regrid")
@@ -65,7 +87,13 @@ def _regrid_ghosts(x, y, y_step, interpolant="linear", result=None):
     import math
     import numpy as np
     c = [math.ceil(v / y_step) for v in y]
-    return {"g_offs": np.cumsum([abs(c[i + 1] - c[i]) for i in range(len(c) - 1)]).astype(int) if len(c) > 1 else np.array([], dtype=int)}
+    seg, ord_ = [], []
+    for i in range(len(c) - 1):
+        for j in range(abs(c[i + 1] - c[i])):
+            seg.append(i)
+            ord_.append(j)
+    return {"g_offs": np.cumsum([abs(c[i + 1] - c[i]) for i in range(len(c) - 1)]).astype(int) if len(c) > 1 else np.array([], dtype=int),
+            "g_seg": seg, "g_ord": ord_}
 
 
 @examples("spowtd.regrid:regrid")
